@@ -1069,6 +1069,21 @@ def m_try_recv(it, argv, text):
     env = env_of(it)
     ctx = it.ctx
     EMPTY = err(EnumV('TryRecvError', 'Empty', 0, ()))
+    if getattr(env, 'sched_policy', 'all') == 'fifo':
+        # one fixed schedule (used where the property does not depend on the completion order)
+        while True:
+            if env.queue:
+                env.idle_empties = 0
+                return ok(env.queue.pop(0))
+            if env.pending:
+                env.idle_empties = 0
+                _run_task(it, env, 0)
+                continue
+            env.idle_empties = getattr(env, 'idle_empties', 0) + 1
+            if env.idle_empties >= 3:
+                raise Violation("hang: coordinator keeps polling an empty channel with no task in flight",
+                                {'op': 'sched', 'trace': list(env.sched_trace)})
+            return EMPTY
     while True:
         opts = []
         if env.queue:
